@@ -58,6 +58,7 @@ PROP = {
                 "composition of the step lemmas over a whole stream (induction on paper)"],
     "assumptions": ["neither frame marker occurs anywhere except at message starts (the property's precondition)"],
     "instances": ACC + IT + ABS + [
+        inst(F, "c01_from_headers_fields", Q, "all 256 header-type bytes, 22 symbolic additional-header bytes", "L1c field extraction: ECU / timestamp / extended header from the right offsets for every flag combination", covers=2, timeout=1800),
         inst(F, "c01_reject_storage_40", Q, "any buffer <= 40 B not starting with the storage marker", "L2 reject: InvalidData (>= 20 B) / NotEnoughData, never Ok", covers=2, timeout=2400, cost=60),
         inst(F, "c01_reject_serial_40", Q, "any buffer <= 40 B not starting with the serial marker", "L2 reject: InvalidData (>= 8 B) / NotEnoughData, never Ok", covers=2, timeout=2400, cost=60),
         inst(F, "c03_u1_storage_any_24", Q, "any buffer <= 24 B (marker or not), any len field / htyp", "L4 length arithmetic: no overflow, consumed <= len", covers=2, timeout=2400, cost=40),
